@@ -67,4 +67,30 @@ package flag
 //@     assert C12_range_is_checked_before_the_narrowing_conversion:
 //@          (isSignedKind(kind(vtype(fval))) ==> sLo(kindBits(kind(elem(vtype(ffield))))) <= vintH(rh, fval) && vintH(rh, fval) <= sHi(kindBits(kind(elem(vtype(ffield))))))
 //@       && (isUnsignedKind(kind(vtype(fval))) && kind(vtype(fval)) != Uintptr ==> vuintH(rh, fval) <= uHi(kindBits(kind(elem(vtype(ffield))))))
-//@   ensures C12_an_out_of_range_value_is_reported_and_not_stored: true
+//@   ensures C12_C18_a_visited_flag_sets_its_leaf_or_reports_an_error: mhas(theSet(s).flagFieldName, f.Name) && f.Value != nil && impl(f.Value, "flag.Getter") ==> rh > old(rh) || cell(setErr, "Iface") != nil
+
+// Value itself: only what the command line set is looked at (flag.FlagSet.Visit, not VisitAll), through the
+// callback above, after the flags were registered with the alias mangler in front of the flatten mangler.
+//@ extern func flag.(*FlagSet).Visit(f, fn)
+//@   modifies *
+//@ func flag.(*Set).Value(s, ctx, t) (v, err)
+//@   props C12 C18
+//@   flag noframe
+//@   flag panics_ok
+//@   flag only_at
+//@   flag vacuity off
+//@   requires s != nil && t != nil
+//@   modifies *
+//@   at call s.Flags.Visit(:
+//@     assert C12_C18_only_flags_given_on_the_command_line_are_visited: true
+//@ func flag.(*Set).registerFlags(s, tmpl, ptyp) (err)
+//@   props C12 C14
+//@   flag noframe
+//@   flag panics_ok
+//@   flag only_at
+//@   flag vacuity off
+//@   requires s != nil && s.NameCfg != nil && ptyp != nil
+//@   modifies *
+//@   at call transform.NewTransformer(:
+//@     assert C14_C12_aliases_are_expanded_before_flattening: len(arg1) == 2 && isType(cell(selem(arg1, 0), "Iface"), "*transform.AliasMangler")
+//@          && isType(cell(selem(arg1, 1), "Iface"), "*transform.FlattenMangler")
